@@ -488,10 +488,14 @@ def run(tier: str, seed: int) -> Report:
              ("WshortR", False, 2)]
     if tier == "thorough":
         plans = [("WRR", True, 3), ("RWR", True, 2), ("WRR", False, 3), ("WWR", True, 2), ("WshortR", True, 2),
-                 ("WshortR", False, 3), ("RWR", False, 3)]
+                 ("WshortR", False, 3), ("RWR", False, 3), ("WRR", True, 2), ("WRR", False, 2), ("WshortR", False, 2),
+                 ("RWR", False, 2)]
+    # three injected frames over the full 13-letter alphabet are > 10^6 schedules (an hour of thorough tier): depth 3
+    # runs over a 9-letter alphabet (every frame class once), depth <= 2 over the full one
+    alpha_mid = ALPHA_QUICK + ["NackTU", "AckOtherPair"]
     for prog, auto, budget in plans:
         def runit(ch: Any, prog: str = prog, auto: bool = auto, budget: int = budget) -> dict[str, Any]:
-            return run_scenario(ch, prog, alpha, budget, auto=auto)
+            return run_scenario(ch, prog, alpha_mid if (budget >= 3 and tier == "thorough") else alpha, budget, auto=auto)
 
         for _vec, t in explore(runit, 64):
             add(t, f"enum-{prog}-{'auto' if auto else 'manual'}-b{budget}")
